@@ -38,11 +38,11 @@ def run(rep, tier, seed):
     if tier == 'quick':   # a seeded subset of the universe keeps the quick tier around a minute
         import random as _r
         rnd = _r.Random(seed)
-        must = ['set_ss_st', 'set_ss_st_uni', 'set_ints', 'i1', 'true', 'f1', 'list_i1', 'tuple_i1', 'plain_a1',
+        must = ['set_ss_st', 'set_ss_st_uni', 'set_ints', 'long_str', 'long_str2', 'long_list', 'deep_dict', 'deep_obj', 'deep_obj_other', 'i1', 'true', 'f1', 'list_i1', 'tuple_i1', 'plain_a1',
                                                                    'other_a1', 'dict_a1', 'dict_dict', 'list_dict2']
         rest = [t for t in toks if t not in must]
         rnd.shuffle(rest)
-        toks = sorted(set(must + rest[:28]))
+        toks = sorted(set(must + rest[:24]))
     with tlc.Scratch() as s:
         consts = dict(ValsX=set(toks), ValsS=set(small()), Pres={1, 2})
         invs = ['PresentationIndependent', 'UncapturedIgnored', 'AliasInKey']
